@@ -764,7 +764,7 @@ Qed.
 Definition ids_ok (n : h5node) : Prop :=
   match n with
   | HStrs l => Forall (fun s => s <> []) l /\ NoDup l
-  | HInts [] | HFlts [] | HEmpty => True
+  | HInts [] | HFlts [] | HEmpty | HOther O => True
   | _ => False
   end.
 
@@ -785,11 +785,12 @@ Qed.
 Lemma hv_ids_sound f ax n :
   hv_ids f ax = ROk [] -> hfind (h_root f) (P2 (axis_name ax) "ids") = Some n -> ids_ok n.
 Proof.
-  unfold hv_ids. intros H E. rewrite E in H. destruct n as [ch|l|l|l|]; try discriminate; cbn [ids_ok].
+  unfold hv_ids. intros H E. rewrite E in H. destruct n as [ch|l|l|l| |k]; try discriminate; cbn [ids_ok].
   - inversion H as [H1]. destruct (ids_loop_sound _ _ _ H1) as (A & B & _). auto.
   - destruct l; [exact Logic.I|discriminate].
   - destruct l; [exact Logic.I|discriminate].
   - exact Logic.I.
+  - destruct k; [exact Logic.I|discriminate].
 Qed.
 
 Fixpoint nondecreasing (l : list Z) : Prop :=
@@ -808,7 +809,7 @@ Qed.
 Definition matrix_ok (f : h5file) (ax : Z) (n_vec n_pos : Z) : Prop :=
   exists d indices indptr,
     hfind (h_root f) (P3 (axis_name ax) "matrix" "data") = Some d
-    /\ (forall ch, d <> HGroup ch) /\ (forall l, d <> HStrs l)
+    /\ (forall ch, d <> HGroup ch) /\ (forall l, d <> HStrs l) /\ (forall k, d <> HOther k)
     /\ hfind (h_root f) (P3 (axis_name ax) "matrix" "indices") = Some (HInts indices)
     /\ hfind (h_root f) (P3 (axis_name ax) "matrix" "indptr") = Some (HInts indptr)
     /\ length indices = node_len d /\ Z.of_nat (length indptr) = n_vec + 1
@@ -822,11 +823,11 @@ Lemma hv_matrix_sound f ax nv np d ni npt :
   hv_matrix f ax (SCALE * nv) (SCALE * np) = ROk [] -> matrix_ok f ax nv np.
 Proof.
   intros Ed Ei Ep H. unfold hv_matrix in H. rewrite Ed, Ei, Ep in H.
-  destruct d as [ch|sl|dl|dl|]; try discriminate.
+  destruct d as [ch|sl|dl|dl| |ok]; try discriminate.
   all: inv_bind H as ki Hki; destruct ki; cbn [negb] in H; [|discriminate];
        inv_bind H as kp Hkp; destruct kp; cbn [negb] in H; [|discriminate];
-       destruct ni as [?|?|indices|?|]; try discriminate;
-       destruct npt as [?|?|indptr|?|]; try discriminate;
+       destruct ni as [?|?|indices|?| |?]; try discriminate;
+       destruct npt as [?|?|indptr|?| |?]; try discriminate;
        match type of H with
        | context [node_len ?dd] =>
            destruct (Z.of_nat (length indices) =? Z.of_nat (node_len dd)) eqn:L1; cbn [negb] in H; [|discriminate];
@@ -1106,3 +1107,27 @@ Definition witness_h5 : h5file :=
                              (K "metadata", HGroup []); (K "group-metadata", HGroup [])])].
 Lemma witness_h5_valid : validate_hdf5 witness_h5 = true.
 Proof. vm_compute. reflexivity. Qed.
+
+(* ------------------------------------------------------------------ both writer forms *)
+(* the validator only looks a key up: two objects with the same value under every key get
+   the same report *)
+Lemma validate_json_ext kv1 kv2 :
+  (forall k, jget kv1 k = jget kv2 k) -> validate_json_report (JObj kv1) = validate_json_report (JObj kv2).
+Proof.
+  intros H.
+  unfold validate_json_report, shape_checks, count_check, REQUIRED. cbn [run_required].
+  unfold valid_format, valid_format_url, valid_type, valid_rows, valid_columns, valid_axis, valid_shape,
+    valid_data, valid_sparse_data, valid_dense_data, element_dtype, valid_matrix_type,
+    valid_matrix_element_type, valid_generated_by, valid_nullable_id, valid_datetime,
+    py_in, py_getitem, py_get.
+  rewrite !H. reflexivity.
+Qed.
+
+(* C15: the streamed (direct_io) form of the writer is accepted as well *)
+Theorem writer_valid_json_direct c tid : writable c -> validate_json (to_json_tree_direct c tid) = true.
+Proof.
+  intros W. pose proof (writer_valid_json c tid W) as V.
+  unfold validate_json in *. unfold to_json_tree_direct, to_json_tree in *.
+  rewrite (validate_json_ext (to_json_fields_direct c tid) (to_json_fields c tid)); [exact V|].
+  destruct (direct_io_same_doc c tid) as (_ & _ & _ & G & _). exact G.
+Qed.
